@@ -6,9 +6,9 @@ package dht
 // C02 — lookups converge on the true closest peers and contact all of them.
 
 import (
-	"errors"
 	"context"
 	"crypto/sha256"
+	"errors"
 	"fmt"
 	"sort"
 	"testing"
@@ -619,8 +619,8 @@ func TestVerif_C01_Cancelled(t *testing.T) {
 // ---------- C02: consistent Kademlia networks ----------
 
 type netSc struct {
-	Lk       lkSc `json:"lookup"`
-	KnowAll  bool `json:"know_all"`
+	Lk       lkSc  `json:"lookup"`
+	KnowAll  bool  `json:"know_all"`
 	BucketRk []int `json:"bucket_ranks,omitempty"` // choice stream for K-subsets of full buckets
 }
 
